@@ -699,6 +699,7 @@ func rxMain(args []string) error {
 	nreads := fs.Int("reads", 0, "responses for the read-partition driver")
 	nrounds := fs.Int("rounds", 0, "multi-round scenarios")
 	nuntil := fs.Int("until", 0, "multi-round scenarios consumed with NextPackageUntil")
+	untilScn := fs.String("untilscn", "", "consumer behaviours generated by TLC from Until.tla")
 	nfail := fs.Int("fail", 0, "responses for the transport-failure driver (every byte offset)")
 	failTimeout := fs.Int("failtimeout", 0, "PacketReadTimeout (s) for the failure driver")
 	failStep := fs.Int("failstep", 1, "failure driver: only every n-th offset (plus the first and last)")
@@ -949,6 +950,60 @@ func rxMain(args []string) error {
 		}
 	}
 
+
+	if *untilScn != "" {
+		b, err := os.ReadFile(*untilScn)
+		if err != nil {
+			return err
+		}
+		var scns []struct {
+			Body   []string `json:"body"`
+			Script []string `json:"script"`
+			NilAt  int      `json:"nilat"`
+		}
+		if err := json.Unmarshal(b, &scns); err != nil {
+			return err
+		}
+		for i, sc := range scns {
+			if i%40 == 0 {
+				tr.Reset(map[string]interface{}{"driver": "untilscn", "i": i})
+			}
+			var abs []struct {
+				K string `json:"k"`
+				N int    `json:"n"`
+			}
+			for _, k := range sc.Body {
+				abs = append(abs, struct {
+					K string `json:"k"`
+					N int    `json:"n"`
+				}{k, 2})
+			}
+			// the closing final DONE is the server's or - when the response lacks one - the library's
+			if rng.Intn(2) == 0 {
+				abs = append(abs, struct {
+					K string `json:"k"`
+					N int    `json:"n"`
+				}{"doneF", 2})
+			}
+			ps := concretise(rng, abs)
+			if len(ps) == 0 {
+				ps = append(ps, encDone(tokDone, 0, 0, 0))
+			}
+			resp := respBytes(ps)
+			id := i%40 + 1
+			r.resp(id, ps)
+			if err := r.runDirect(id, resp, nil, "ref", true, 1, 1); err != nil {
+				return err
+			}
+			var cs []int
+			for j := rng.Intn(3); j > 0 && len(resp) > 1; j-- {
+				cs = append(cs, 1+rng.Intn(len(resp)-1))
+			}
+			if err := r.runUntil(id, resp, uniq(sortInts(cs)), true, 1, 1, sc.Script, sc.NilAt-1); err != nil {
+				return err
+			}
+		}
+	}
 
 	outs := []string{"cont", "cont", "cont", "cont", "stop", "eof", "err"}
 	for i := 0; i < *nuntil; i++ {
